@@ -1,6 +1,6 @@
 (* C11 — Non-revocation proofs are sound and tied to the credential. *)
 From Coq Require Import ZArith List.
-From Gabi Require Import ModArith GoSem ParamsDef ZkProof Keys NonRev Core CoreTotal CoreSound NonRevProver.
+From Gabi Require Import ModArith GoSem ParamsDef ZkProof Keys NonRev Core CoreTotal CoreSound NonRevProver NonRevComplete.
 From GabiGen Require Import Consts.
 Import ListNotations.
 Open Scope Z_scope.
@@ -37,3 +37,17 @@ Theorem invalid_witness_no_commit :
   forall pk u e nu r2 r3 ra rb rd re rz,
   powx (pk_N pk) u e <> nu -> new_proof_commit pk u e nu r2 r3 ra rb rd re rz = Err.
 Proof. exact invalid_witness_no_commit_lem. Qed.
+
+(* Completeness of the non-revocation part: for a commitment made for a witness for which the three proved
+   relations hold (NewProofCommit checks them before committing) and whose bases are units, the honest
+   responses to ANY challenge make the verifier reconstruct exactly the commitments the prover hashed; so an
+   honest proof fails only through the choice of the revocation attribute (known finding). *)
+Theorem nonrev_complete :
+  forall pk u e nu r2 r3 ra rb rd re rz l c ch resp sacc,
+  1 < pk_N pk -> 0 <= ch ->
+  nr_commit pk u e nu r2 r3 ra rb rd re rz = Ok (l, c) ->
+  nr_build_proof c ch = Ok resp ->
+  (forall s, In s [ps_cr; ps_nu; ps_one] -> nr_stmt_true pk c s /\ nr_units pk c s) ->
+  nr_challenge_contributions pk (mkNr (Some (nc_cr c)) (Some (nc_cu c)) (Some (nc_nu c)) (Some ch) (Some resp) sacc)
+  = Ok (map Some l).
+Proof. exact nr_complete_lem. Qed.
